@@ -134,7 +134,16 @@ def norm_def(d):
     d.setdefault('calc', [])          # calc_dep task ids
     d.setdefault('subs', 0)           # > 0: group task with that many sub-task producers
     d.setdefault('cmd', False)        # first action is a cmd-action echoing the substitutions
+    d.setdefault('delayed', None)     # group only: task id after whose execution the group is created (create_after)
     return d
+
+
+_WORLD = None
+
+
+def delayed_effect(key):
+    """action of a sub-task created by a delayed loader: must be picklable by reference (process runner)"""
+    return _WORLD._effect(key)()
 
 
 # ----------------------------------------------------------------------------------------------
@@ -179,6 +188,11 @@ class World(statuslib.World):
             return effect()
         return [act]
 
+    def doit(self, argv, reporter=None):
+        global _WORLD
+        _WORLD = self
+        return statuslib.World.doit(self, argv, reporter)
+
     def namespace(self):
         world = self
         ns = {}
@@ -187,7 +201,13 @@ class World(statuslib.World):
             if d['subs']:
                 def gen(t=t, d=d):
                     for j in range(d['subs']):
-                        yield {'name': 'x%d' % j, 'actions': [world._effect(str(sub_id(t, j)))]}
+                        if d['delayed'] is not None:
+                            yield {'name': 'x%d' % j, 'actions': [(delayed_effect, [str(sub_id(t, j))])]}
+                        else:
+                            yield {'name': 'x%d' % j, 'actions': [world._effect(str(sub_id(t, j)))]}
+                if d['delayed'] is not None:
+                    from doit import create_after
+                    gen = create_after(executed=tname(d['delayed']), creates=[tname(t)])(gen)
                 ns['task_' + tname(t)] = gen
                 continue
 
@@ -815,7 +835,8 @@ def render(case):
             d = norm_def(op[2])
             bits = []
             if d['subs']:
-                bits.append('group of %d sub-task producers' % d['subs'])
+                bits.append('group of %d sub-task producers' % d['subs'] +
+                            (' created by a delayed loader after %s' % tname(d['delayed']) if d['delayed'] is not None else ''))
             else:
                 bits.append('file_dep %s targets %s uptodate %s' % ([fname(p) for p in d['deps']], [fname(p) for p in d['targets']],
                                                                      [' '.join(str(x) for x in i) for i in d['uptodate']]))
@@ -940,6 +961,9 @@ def gen_case(rng, parallel=False):
                  'uptodate': [['const', True]] if 0.45 <= kind < 0.55 else []}
         elif r == 'group':
             d = {'subs': 2}
+            anchors = [u for u in range(t) if roles[u] in ('producer', 'calc')]
+            if anchors and rng.random() < 0.45:
+                d['delayed'] = rng.choice(anchors)
         elif r == 'calc':
             d = {'deps': [rng.randrange(nsrc)] if rng.random() < 0.6 else []}
         else:
